@@ -40,15 +40,16 @@ CONSTANTS NVals,      \* value tokens 0..NVals-1
           Disposes,   \* TRUE: dispose points range over every position, else NEVER only
           Faults,     \* TRUE: fault positions are enumerated
           Dsp2,       \* second subscription: "all" = every dispose point; "few" = never, or the same as the first
+          SinkRaises, \* TRUE: also scenarios whose subscriber's on_error handler raises (what the default handler does)
           Canon       \* TRUE: timelines are <<0, 1, 0, ...>> only (these operators never look at the values)
 
 Vals  == 0..(NVals - 1)
 NEVER == 99
 
-VARIABLES op, src, term, flt, ns, dsp,          \* the scenario (constant along a behaviour)
+VARIABLES op, src, term, flt, ns, dsp, sraise,  \* the scenario (constant along a behaviour)
           cur, i, st, pend, log, unsub, calls   \* the run
 
-vars == <<op, src, term, flt, ns, dsp, cur, i, st, pend, log, unsub, calls>>
+vars == <<op, src, term, flt, ns, dsp, sraise, cur, i, st, pend, log, unsub, calls>>
 
 Min2(a, b) == IF a <= b THEN a ELSE b
 SrcLen == Len(src) + (IF term = "U" THEN 0 ELSE 1)
@@ -69,6 +70,8 @@ Given(o) == CASE o \in {"do_action", "do_observer"} -> {"next", "error", "comple
               [] o = "do_action_n"  -> {"next"}
               [] o = "do_action_ec" -> {"error", "completed"}
               [] OTHER              -> {}
+\* operators for which the raising-subscriber dimension is enumerated
+RaiseOps == {"using", "finally_action", "do_finally", "do_action", "do_action_n", "do_action_ec", "do_action_0", "do_observer", "do_on_terminate"}
 NoFault == [w |-> "none", k |-> 0]
 PerElem == {"next", "after_next"}
 
@@ -161,6 +164,14 @@ Init == /\ op \in Ops
         /\ ns \in 1..MaxSubs
         /\ dsp \in [1..ns -> DspOf(src, term)]
         /\ (ns = 2 /\ Dsp2 = "few") => dsp[2] \in {NEVER, dsp[1]}
+        \* The subscriber's on_error may itself raise (no handler given: the default one re-raises).  The
+        \* notification was delivered all the same - the subscription has terminated - and the exception
+        \* travels back into whoever emitted it: out of subscribe() when the source fails while being
+        \* subscribed (then no subscription handle ever exists), into the scheduler otherwise.  Nothing the
+        \* property promises is waived by that: the log below is the same, the resource / the finally
+        \* action is still owed exactly once; obs.esc says that an exception is expected to escape.
+        /\ sraise \in (IF SinkRaises /\ term = "E" /\ flt.w = "none" /\ ns = 1 /\ dsp[1] = NEVER /\ op \in RaiseOps
+                       THEN BOOLEAN ELSE {FALSE})
         /\ cur = 1 /\ i = 0
         /\ st = S0 /\ pend = <<>>
         /\ log = [s \in 1..ns |-> <<>>]
@@ -180,7 +191,7 @@ Subscribe ==
      /\ log' = [log EXCEPT ![cur] = Stamp(r.now, 0, 0)]
      /\ unsub' = [unsub EXCEPT ![cur] = IF r.st.open THEN NEVER ELSE 0 - 1]   \* -1: the source is never subscribed
   /\ calls' = 1 /\ i' = 0
-  /\ UNCHANGED <<op, src, term, flt, ns, dsp, cur>>
+  /\ UNCHANGED <<op, src, term, flt, ns, dsp, sraise, cur>>
 
 Close(s, at, d) == Stamp(Cleanup(op, s), at, d)
 
@@ -190,7 +201,7 @@ Hop ==
   /\ log' = [log EXCEPT ![cur] = @ \o Stamp(pend, 0, 0) \o Close(st, 0, 0)]
   /\ st' = [st EXCEPT !.term = TRUE, !.closed = TRUE, !.res = FALSE]
   /\ pend' = <<>>
-  /\ UNCHANGED <<op, src, term, flt, ns, dsp, cur, i, unsub, calls>>
+  /\ UNCHANGED <<op, src, term, flt, ns, dsp, sraise, cur, i, unsub, calls>>
 
 \* the subscriber disposes: after DAfter source events; at instant 0 it races with a pending hop
 Dispose ==
@@ -199,7 +210,7 @@ Dispose ==
   /\ st' = [st EXCEPT !.closed = TRUE, !.res = FALSE, !.open = FALSE]
   /\ unsub' = [unsub EXCEPT ![cur] = IF st.open THEN DAt ELSE @]
   /\ pend' = <<>>
-  /\ UNCHANGED <<op, src, term, flt, ns, dsp, cur, i, calls>>
+  /\ UNCHANGED <<op, src, term, flt, ns, dsp, sraise, cur, i, calls>>
 
 \* the next source event
 Feed ==
@@ -214,7 +225,7 @@ Feed ==
              /\ unsub' = [unsub EXCEPT ![cur] = j]
         ELSE /\ log' = [log EXCEPT ![cur] = @ \o Stamp(r.em, j, 0)]
              /\ st' = s2 /\ UNCHANGED unsub
-  /\ UNCHANGED <<op, src, term, flt, ns, dsp, cur, pend, calls>>
+  /\ UNCHANGED <<op, src, term, flt, ns, dsp, sraise, cur, pend, calls>>
 
 \* this subscription can do nothing more: closed, or the source ran dry without a dispose pending
 SubFinal == ~Idle /\ pend = <<>> /\ (st.closed \/ ~st.open \/ (i = SrcLen /\ (D = NEVER \/ DAfter > i)))
@@ -222,7 +233,7 @@ SubFinal == ~Idle /\ pend = <<>> /\ (st.closed \/ ~st.open \/ (i = SrcLen /\ (D 
 NextSub ==
   /\ SubFinal /\ cur <= ns
   /\ cur' = cur + 1 /\ calls' = 0 /\ i' = 0 /\ st' = S0 /\ pend' = <<>>
-  /\ UNCHANGED <<op, src, term, flt, ns, dsp, log, unsub>>
+  /\ UNCHANGED <<op, src, term, flt, ns, dsp, sraise, log, unsub>>
 
 Next == Subscribe \/ Hop \/ Dispose \/ Feed \/ NextSub
 Spec == Init /\ [][Next]_vars
@@ -346,6 +357,12 @@ DoIsTransparent == (Final /\ flt.w \in {"none", "after_terminate", "resnone"}) =
 Resub == (Final /\ ns = 2 /\ dsp[1] = dsp[2] /\ ~HopRace(1)) => (log[1] = log[2] /\ unsub[1] = unsub[2])
 
 (* ---- export ----------------------------------------------------------------------------------- *)
-Export == Final => PrintT(ToJson([scn |-> [op |-> op, src |-> src, term |-> term, flt |-> flt, ns |-> ns, dsp |-> dsp],
-                                  obs |-> [log |-> log, unsub |-> unsub]]))
+\* the exactly-once obligations do not depend on how the subscriber's handler behaves
+OwedDespiteRaisingSubscriber ==
+  (Final /\ sraise) => \A s \in 1..ns :
+      /\ op = "using" => Count(log[s], "res") = 1
+      /\ op \in {"finally_action", "do_finally"} => Count(log[s], "fin") = 1
+      /\ TerminatedLog(s)
+Export == Final => PrintT(ToJson([scn |-> [op |-> op, src |-> src, term |-> term, flt |-> flt, ns |-> ns, dsp |-> dsp, sraise |-> sraise],
+                                  obs |-> [log |-> log, unsub |-> unsub, esc |-> sraise]]))
 ================================================================================
